@@ -462,10 +462,10 @@ pub fn run(opts: Opts) -> i32 {
         let tier = report.tier();
         let t = tier.as_str();
         let cap = report.opts.wall_cap_s;
-        let mut jobs = vec![job(t, "c09", cap, Pre::OpenTurn, Reader::AutoCompaction, Writer::Message, 1)];
+        let mut jobs = vec![job(t, "c09", cap, Pre::OpenTurn, Reader::AutoCompaction, Writer::Message, 1), job(t, "c09", cap, Pre::OpenTurn, Reader::AutoCompaction, Writer::AutoCompaction, 1)];
         if tier == crate::common::Tier::Thorough {
             for pre in [Pre::OpenTurn, Pre::OpenTurnNoCaches, Pre::LongWithCheckpoint] {
-                for w in [Writer::Message, Writer::RunEnded, Writer::SideEffect, Writer::Cursor] {
+                for w in [Writer::Message, Writer::RunEnded, Writer::SideEffect, Writer::Cursor, Writer::AutoCompaction] {
                     jobs.push(job(t, "c09", cap, pre, Reader::AutoCompaction, w, 1));
                 }
             }
